@@ -327,7 +327,9 @@ def main():
         # ---- (4) proxies: the id the client builds, and the values against the raw request
         def gen_tree(depth):
             if depth <= 0 or rng.random() < 0.3:
-                return rng.choice(["x", "f", "g", "g.a", "st.m", "0", "1", "2", "-1", "1.5", '"txt"'])
+                return rng.choice(["x", "f", "g", "g.a", "st.m", "0", "1", "2", "-1", "1.5", '"txt"',
+                                   # numbers with more than six significant digits reach the server with all of them
+                                   "12345678", "3000007", "0.1234567891", "-1234567.25"])
             return ("spy", [gen_tree(depth - 1) for _ in range(rng.randint(1, 3))])
         ssf_spy = ServerSideFunctions(BaseHandler(ds), spy=lambda dataset, *args: BaseType("r", np.array(0)) if False else Node(args))
         client2 = open_url("http://localhost:8001/d", application=ServerSideFunctions(BaseHandler(ds)))
@@ -344,7 +346,7 @@ def main():
                 return float(node) if "." in node else int(node)
             stats["proxy_calls"] += 1
             pid = via_proxy(t).id
-            # the proxy writes numbers through '%.6g' and strings quoted: the same tokens as in the tree
+            # the proxy writes numbers with all their digits and strings quoted: the same tokens as in the tree
             id_cases.append("(%s, %s)" % (c_cexp(t), ctext(pid)))
             # what the server evaluates for that text
             stats["spy_calls"] += 1
@@ -434,7 +436,16 @@ def canon_arg(a):
         return a.id
     if isinstance(a, str):
         return '"%s"' % a if not a.startswith('"') else a
-    return "%.6g" % a
+    return num_token(a)
+
+
+def num_token(v):
+    """a number with all its digits (ints as ints)"""
+    if isinstance(v, bool):
+        return repr(v)
+    if hasattr(v, "item"):
+        v = v.item()
+    return str(v) if isinstance(v, int) else repr(float(v))
 
 
 def canon(t):
@@ -442,7 +453,7 @@ def canon(t):
         return (t[0], [canon(a) for a in t[1]])
     if t.startswith('"') or t in ("x", "f", "g", "g.a", "st.m"):
         return t
-    return "%.6g" % float(t)
+    return num_token(float(t) if "." in t or "e" in t.lower() else int(t))
 
 
 if __name__ == "__main__":
